@@ -35,4 +35,6 @@ SUBS.append(Sub("foreign-image-scripts", run, kind="enum", enumerate=lambda tier
                 rule="well-formed files as other writers leave them (later unused slots carrying 0 / 64 / -1 / 2^31-1 / mixed values instead of the end of the data; blocks padded to "
                      "64 bytes) x table lengths {4,6,14} x 0..2 live blocks x scripts with two or more adds (api, setters, across a reopen, after removes); finite, enumerated",
                 nontrivial_required=False))
+from ..core import optimised_child_sub  # noqa: E402
+SUBS.append(optimised_child_sub("C03", ["fill-level-scripts"]))
 TIME_BUDGET = {"quick": 150, "thorough": 1500}
